@@ -43,9 +43,11 @@ src_chunk(void *drv, void *buf, size_t n)
         E.overrun = true;
         return -EIO;
     }
-    /* the plumbing must read into the offered scratch region */
-    const unsigned char *p = buf;
-    if (!(p >= E.scratch + E.soff && p + n <= E.scratch + E.sused))
+    /* Memory of the source's scratch block may only be used inside the offered
+     * region.  Not using the offer at all (reading into memory of the
+     * implementation's own) touches nothing it should not. */
+    const uintptr_t p = (uintptr_t)buf, blk = (uintptr_t)E.scratch;
+    if (n > 0 && p < blk + E.ssize && p + n > blk && !(p >= blk + E.soff && p + n <= blk + E.sused))
         E.wrote_outside = true;
     if (E.pos >= E.len)
         return -ENODATA;
@@ -133,7 +135,7 @@ run(int op, size_t n, size_t stream, size_t ssize, size_t soff, size_t sused, co
     if (E.overrun)
         mc_fail("C17/hang", "%s: driver call budget exceeded", OPN[op]);
     else if (E.wrote_outside)
-        mc_fail("C17/aux-region", "%s asked the source to fill memory outside the offered scratch region", OPN[op]);
+        mc_fail("C17/aux-region", "%s asked the source to fill memory of the scratch block outside the offered region", OPN[op]);
     else if (!prefix)
         mc_fail("C17/sink-prefix", "%s: what reached the sink is not a prefix of the stream", OPN[op]);
     else if (E.ngot != E.pos)
@@ -148,18 +150,18 @@ run(int op, size_t n, size_t stream, size_t ssize, size_t soff, size_t sused, co
                 mc_fail("C17/hard-error-unchanged", "sts_n(%zu) on a stream of %zu octets returned %zd", n, stream, rc);
             break;
         case OP_ATMOST:
-            if (stream > 0 && (rc < 0 || (size_t)rc != E.ngot || E.ngot > n || E.ngot > region || E.ngot == 0))
+            /* bounded by what was asked, not by the size of the scratch region */
+            if (stream > 0 && (rc < 0 || (size_t)rc != E.ngot || E.ngot > n || E.ngot == 0))
                 mc_fail("C17/atmost-count", "sts_atmost(%zu) with a %zu-octet scratch region returned %zd and moved %zu octets", n, region, rc, E.ngot);
             break;
         case OP_SOME:
-            if (stream > 0 && (rc < 0 || (size_t)rc != E.ngot || E.ngot > region || E.ngot == 0))
+            if (stream > 0 && (rc < 0 || (size_t)rc != E.ngot || E.ngot == 0))
                 mc_fail("C17/atmost-count", "sts_some with a %zu-octet scratch region returned %zd and moved %zu octets", region, rc, E.ngot);
             break;
         case OP_DRAIN:
+            /* the return value of a drain that met nothing but the source's end is not pinned */
             if (E.ngot != stream)
                 mc_fail("C17/drain-complete", "sts_drain moved %zu of %zu octets (rc %zd)", E.ngot, stream, rc);
-            else if (rc != -ENODATA)
-                mc_fail("C17/hard-error-unchanged", "sts_drain returned %zd, the source ended with %d", rc, -ENODATA);
             break;
         }
     free(E.scratch);
